@@ -23,6 +23,13 @@ GROUPS.append(dict(name='ms_copy_channel_in', cls='B', tu='C13_ms_copy_in.c', en
     bounds='3 samples per channel, source stride 1..3, any channel, destination stride 1..2, every int16 sample value',
     what='multistream encoder input copies: the three sample formats give bit-identical internal samples; channel selection and stride'))
 
+_MW = dict(cls='P', tu='C13_ms_enc_wrappers.c', entry='h_ms_enc_wrappers', dfcc=False, canary='real', expect_canaries=3, unwind=2, timeout=600, cex=False,
+           what='the three entry points describe their sample format consistently to the native encoder (copy-in, analysis down-mix, width, float flag)')
+GROUPS.append(dict(_MW, name='projection_enc_wrappers', defines=['-U__SSE__', '-DVERIF_PROJECTION=1'], functions=['opus_projection_encode', 'opus_projection_encode24', 'opus_projection_encode_float'],
+    trusted=['recording stub of opus_multistream_encode_native']))
+GROUPS.append(dict(_MW, name='multistream_enc_wrappers', defines=['-U__SSE__'], replace_calls=['opus_multistream_encode_native:verif_ms_native'], functions=['opus_multistream_encode', 'opus_multistream_encode24', 'opus_multistream_encode_float'],
+    trusted=['recording stub of opus_multistream_encode_native (calls redirected)']))
+
 # shared with C11 (same TU, same harness): only the assertions named in 'focus' are this property's; the others are decided under C11
 import copy as _copy
 from proofs import reg_C11 as _reg_C11
